@@ -170,6 +170,11 @@ func errLookedAt(p *Prog, fi *FuncInfo) map[string]string {
 				if named[o] {
 					continue
 				}
+				// a helper the reference tree did not have and that returns nothing cannot refuse: what follows its failed
+				// step is decided in its caller, whose rules read the helper's body in place
+				if bi == 0 && p.newHelpers[fi.Obj] && (ftypes[0].Results == nil || len(ftypes[0].Results.List) == 0) {
+					continue
+				}
 				// E2: when the step DID fail, the error itself is used (returned, wrapped, logged, stored) or the function
 				// refuses, before the value is lost - a test with the wrong polarity sends the failure down the success path
 				realRead := func(q Pt) bool { return q.Node() != nil && readsObjReal(info, q.Node(), o) }
@@ -472,6 +477,7 @@ func errDisciplineSeen(c *Check) {
 	c.Rule("E3", "an error known to be nil is not handed on as the failure (the failure branch is not taken when the step succeeded)", 0)
 	c.Rule("E1", "in every function this property's rules looked at, the error result of a step (a call) is read - tested, returned, passed on or stored - on every path before it is overwritten or the function returns: no failed step is silently treated as done", e1Floor[c.ID])
 	errDiscipline(c, "E1", fis)
+	lastWinsSeen(c, fis)
 	c.Rule("E4", "the value of a two-valued type assertion, map lookup or channel receive is not read where its ok flag is false (there it is the zero value: a nil connection, an empty entitlement, reply code 0)", 0)
 	for _, fi := range fis {
 		obs := commaOkSites(c.P, fi)
